@@ -12,7 +12,25 @@ import (
 	"ivgsa/internal/sym"
 )
 
-func init() { register("C07", ruleC07_1, ruleC07_2, ruleC07_3) }
+func init() { register("C07", ruleC07_1, ruleC07_2, ruleC07_3, ruleC07_shared) }
+
+// ruleC07_shared: "rendering directly = rendering via the encoded bytes" needs the Encoder and the decoder to mirror
+// each other call by call - the structural round trip of C01 (drawing mirror, run-length discipline, styling mirror,
+// the converse per opcode, end-of-input agreement), evaluated here by reference - and the suggested palette to
+// survive its writer (C09.4).
+func ruleC07_shared(c *Ctx) {
+	c.R.Only("C01.1", "C01.2")
+	ruleC01_1(c)
+	c.R.Only("C01.3")
+	ruleC01_3(c)
+	c.R.Only("C01.5")
+	ruleC01_5(c)
+	c.R.Only("C01.6")
+	ruleC01_6(c)
+	c.R.Only("C09.4")
+	ruleC09_4(c)
+	c.R.Only()
+}
 
 // destinationMethods lists the methods of ivg.Destination in a stable order.
 func (c *Ctx) destinationMethods() []*types.Func {
